@@ -189,7 +189,12 @@ class Evaluate(SxContract):
         s0 = float(np.asarray(g.evaluate(P.copy(), A)).item())
         if self.mode == "C01":
             if self.kind == "wasserstein":
-                return None
+                # independent reference for the optimal-transport cost: the transport LP solved by scipy's HiGHS (not POT);
+                # this also exercises, natively, the optimality contract that the symbolic run only assumes of ot.emd2
+                sp = wasserstein_reference(P, A, self.ovo)
+                res["score==spec (transport LPs solved by scipy.optimize.linprog)"] = (
+                    close(s0, sp, rtol=1e-6, atol=1e-8), {"P": P.tolist(), "A": A.tolist(), "code": s0, "spec": sp})
+                return res
             sp = float(spec.score(self.kind, self.ovo, P.tolist(), None if A is None else A.tolist()))
             res["score==spec"] = (close(s0, sp), {"P": P.tolist(), "A": None if A is None else A.tolist(),
                                                   "code": s0, "spec": sp})
@@ -201,22 +206,57 @@ class Evaluate(SxContract):
         if gr.shape != P.shape:
             res["*"] = (False, {"P": P.tolist(), "grad_shape": list(gr.shape)})
             return res
-        # central differences along the simplex-tangent directions e_ik - e_iK
-        h = 1e-6
+        # central differences along the simplex-tangent directions e_ik - e_iK, at two step sizes: the Richardson value is compared
+        # with the returned gradient, and the gap between the two estimates bounds the error of the differences themselves
+        # (entries next to the boundary of the simplex have large higher derivatives: an unreliable difference never fails a clause)
         K = self.K
-        for i in (range(1, self.n) if self.structure == "clipped" else range(self.n)):
+
+        def score_at(i, k, t):
+            Q_ = P.copy()
+            Q_[i, k] += t
+            Q_[i, K - 1] -= t
+            return float(np.asarray(g.evaluate(Q_, A)).item())
+        rows = list(range(1, self.n) if self.structure == "clipped" else range(self.n))
+        if len(rows) > 40:       # large shapes of the size ladder: a spread of 12 rows, first and last included
+            rows = sorted({rows[int(j)] for j in np.linspace(0, len(rows) - 1, 12)})
+        for i in rows:
             for k in range(K - 1):
-                Pp, Pq = P.copy(), P.copy()
-                Pp[i, k] += h
-                Pp[i, K - 1] -= h
-                Pq[i, k] -= h
-                Pq[i, K - 1] += h
-                fd = (float(np.asarray(g.evaluate(Pp, A)).item()) - float(np.asarray(g.evaluate(Pq, A)).item())) / (2 * h)
+                # TV is piecewise linear: a tiny step has no truncation error and almost never straddles a kink
+                h = 1e-9 if self.kind == "tv" else min(1e-6, 0.01 * min(P[i, k], P[i, K - 1]))
+                if h <= 0:
+                    continue
+                fd1 = (score_at(i, k, h) - score_at(i, k, -h)) / (2 * h)
+                fd2 = (score_at(i, k, h / 2) - score_at(i, k, -h / 2)) / h
+                fd = (4 * fd2 - fd1) / 3
                 an = float(gr[i, k] - gr[i, K - 1])
-                res[f"dscore/dP[{i},{k}]"] = (abs(fd - an) <= 1e-5 * (1 + abs(fd) + abs(an)),
+                res[f"dscore/dP[{i},{k}]"] = (abs(fd - an) <= (1e-4 if self.kind == "tv" else 1e-5) * (1 + abs(fd) + abs(an)) + 10 * abs(fd2 - fd1),
                                               {"P": P.tolist(), "A": None if A is None else A.tolist(),
-                                               "finite_difference": fd, "from_returned_gradient": an})
+                                               "finite_difference": fd, "from_returned_gradient": an, "difference_error_estimate": abs(fd2 - fd1)})
         return res
+
+
+def wasserstein_reference(P, A, ovo):
+    """sum_k pi_k W(q_k, r) resp. sum_{a,b} pi_a pi_b W(q_a, q_b), W = minimal transport cost for the cost matrix A (scipy HiGHS)."""
+    from scipy.optimize import linprog
+    from scipy.sparse import lil_matrix
+    n, K = P.shape
+    pi = P.mean(0)
+    q = P / (n * pi)
+    r = np.full(n, 1.0 / n)
+    Aeq = lil_matrix((2 * n, n * n))
+    for i in range(n):
+        Aeq[i, i * n:(i + 1) * n] = 1.0
+        Aeq[n + i, i::n] = 1.0
+    Aeq = Aeq.tocsr()
+
+    def W(a, b):
+        res = linprog(np.asarray(A, dtype=float).ravel(), A_eq=Aeq, b_eq=np.concatenate([a, b]), bounds=(0, None), method="highs")
+        if res.status != 0:
+            raise RuntimeError("reference LP not solved: " + str(res.message))
+        return float(res.fun)
+    if not ovo:
+        return float(sum(pi[k] * W(q[:, k], r) for k in range(K)))
+    return float(sum(2 * pi[a] * pi[b] * W(q[:, a], q[:, b]) for a in range(K) for b in range(a + 1, K)))
 
 
 def task(cls, ovo, n, K, mode, structure="interior", seed=0):
